@@ -726,6 +726,202 @@ impl<P: PathManager + Sync + Send + 'static> GenericScionUdpSocket for UdpScionS
     }
 }
 
+/// Verification hooks: a path aware UDP socket assembled exactly like
+/// [`ScionStack::bind_with_config`](crate::ScionStack::bind_with_config) assembles it, but over an
+/// in-memory underlay, so that an external harness can drive the real receive and send code with
+/// arbitrary packet sequences and underlay faults. Off by default.
+#[cfg(feature = "verif-hooks")]
+pub mod verif_hooks {
+    use std::{
+        collections::VecDeque,
+        io,
+        sync::{Arc, Mutex},
+        time::Duration,
+    };
+
+    use async_trait::async_trait;
+    use sciparse::{
+        address::ip_socket_addr::ScionSocketIpAddr, core::view::View,
+        packet::view::ScionRawPacketView,
+    };
+
+    use super::{PathUnawareUdpScionSocket, SendErrorReceiver, UdpScionSocket};
+    use crate::{
+        internal::Subscribers,
+        path::{fetcher::traits::PathFetcher, manager::MultiPathManager},
+        stack::{
+            BoundUnderlaySocket, ScionSocketReceiveError, ScionSocketSendError, UnderlaySocket,
+            scmp_handler::{ScmpErrorHandler, ScmpErrorReceiver, ScmpHandler},
+        },
+    };
+
+    /// What the in-memory underlay answers to the next `try_send`.
+    #[derive(Debug, Clone)]
+    pub enum SendFault {
+        /// Not ready: `WouldBlock`, the caller has to wait for `writeable` and try again.
+        WouldBlock,
+        /// The next hop is unreachable (what the UDP underlay reports for a failed first hop).
+        NextHopUnreachable {
+            /// ISD-AS reported.
+            isd_as: sciparse::identifier::isd_asn::IsdAsn,
+            /// Interface reported.
+            interface_id: u16,
+        },
+        /// The underlay is closed.
+        Closed,
+    }
+
+    /// The harness side of the in-memory underlay.
+    #[derive(Clone)]
+    pub struct ChannelHandles {
+        /// Raw SCION packets handed to the socket's receive side, in order.
+        pub inject: tokio::sync::mpsc::UnboundedSender<Vec<u8>>,
+        /// Every packet the socket handed to the underlay and the underlay accepted.
+        pub sent: Arc<Mutex<Vec<Vec<u8>>>>,
+        /// Faults answered to the next `try_send` calls, front first; empty = accept.
+        pub send_faults: Arc<Mutex<VecDeque<SendFault>>>,
+        /// Number of `try_send` calls seen.
+        pub send_attempts: Arc<Mutex<u64>>,
+    }
+
+    struct ChannelUnderlay {
+        rx: tokio::sync::Mutex<tokio::sync::mpsc::UnboundedReceiver<Vec<u8>>>,
+        peeked: tokio::sync::Mutex<Option<Vec<u8>>>,
+        handles: ChannelHandles,
+    }
+
+    #[async_trait]
+    impl UnderlaySocket for ChannelUnderlay {
+        fn try_send(&self, packet: &ScionRawPacketView) -> Result<(), ScionSocketSendError> {
+            *self.handles.send_attempts.lock().expect("poisoned") += 1;
+            match self.handles.send_faults.lock().expect("poisoned").pop_front() {
+                None => {
+                    self.handles
+                        .sent
+                        .lock()
+                        .expect("poisoned")
+                        .push(packet.as_slice().to_vec());
+                    Ok(())
+                }
+                Some(SendFault::WouldBlock) => {
+                    Err(ScionSocketSendError::IoError(io::Error::from(
+                        io::ErrorKind::WouldBlock,
+                    )))
+                }
+                Some(SendFault::NextHopUnreachable {
+                    isd_as,
+                    interface_id,
+                }) => {
+                    Err(ScionSocketSendError::UnderlayNextHopUnreachable {
+                        isd_as,
+                        interface_id,
+                        address: None,
+                        msg: "verif".into(),
+                    })
+                }
+                Some(SendFault::Closed) => Err(ScionSocketSendError::Closed),
+            }
+        }
+
+        async fn writeable(&self) {
+            tokio::task::yield_now().await;
+        }
+
+        fn try_recv(&self, buf: &mut [u8]) -> Result<usize, ScionSocketReceiveError> {
+            let would_block =
+                || ScionSocketReceiveError::IoError(io::Error::from(io::ErrorKind::WouldBlock));
+            let Ok(mut peeked) = self.peeked.try_lock() else {
+                return Err(would_block());
+            };
+            let packet = match peeked.take() {
+                Some(packet) => packet,
+                None => {
+                    let Ok(mut rx) = self.rx.try_lock() else {
+                        return Err(would_block());
+                    };
+                    match rx.try_recv() {
+                        Ok(packet) => packet,
+                        Err(tokio::sync::mpsc::error::TryRecvError::Empty) => {
+                            return Err(would_block());
+                        }
+                        Err(tokio::sync::mpsc::error::TryRecvError::Disconnected) => {
+                            return Err(ScionSocketReceiveError::IoError(io::Error::other(
+                                "channel closed",
+                            )));
+                        }
+                    }
+                }
+            };
+            let n = packet.len();
+            buf[..n].copy_from_slice(&packet);
+            Ok(n)
+        }
+
+        async fn readable(&self) {
+            let mut peeked = self.peeked.lock().await;
+            if peeked.is_some() {
+                return;
+            }
+            if let Some(packet) = self.rx.lock().await.recv().await {
+                *peeked = Some(packet);
+            }
+        }
+    }
+
+    /// Builds a path aware UDP socket over an in-memory underlay.
+    ///
+    /// Mirrors `ScionStack::bind_with_config`: the SCMP handler list is `extra_handlers` followed
+    /// by the stack's `ScmpErrorHandler`, the path manager is registered as SCMP error receiver and
+    /// as send error receiver, `extra_scmp_receivers` are registered next to it.
+    ///
+    /// Injected packets must decode as SCION packets (the underlay contract).
+    pub fn socket_over_channel<F: PathFetcher>(
+        local_addr: ScionSocketIpAddr,
+        pather: Arc<MultiPathManager<F>>,
+        extra_handlers: Vec<Box<dyn ScmpHandler>>,
+        extra_scmp_receivers: Vec<Arc<dyn ScmpErrorReceiver>>,
+        connect_timeout: Duration,
+    ) -> (UdpScionSocket<MultiPathManager<F>>, ChannelHandles) {
+        let (inject, rx) = tokio::sync::mpsc::unbounded_channel();
+        let handles = ChannelHandles {
+            inject,
+            sent: Arc::new(Mutex::new(Vec::new())),
+            send_faults: Arc::new(Mutex::new(VecDeque::new())),
+            send_attempts: Arc::new(Mutex::new(0)),
+        };
+        let underlay = ChannelUnderlay {
+            rx: tokio::sync::Mutex::new(rx),
+            peeked: tokio::sync::Mutex::new(None),
+            handles: handles.clone(),
+        };
+
+        let scmp_error_receivers: Subscribers<dyn ScmpErrorReceiver> = Subscribers::new();
+        let send_error_receivers: Subscribers<dyn SendErrorReceiver> = Subscribers::new();
+
+        let mut handlers = extra_handlers;
+        handlers.push(Box::new(ScmpErrorHandler::new(scmp_error_receivers.clone())));
+        let socket = PathUnawareUdpScionSocket::new(
+            BoundUnderlaySocket {
+                socket: Box::new(underlay),
+                local_addr,
+                snap_data_plane: None,
+            },
+            handlers,
+        );
+
+        scmp_error_receivers.register(pather.clone());
+        send_error_receivers.register(pather.clone());
+        for receiver in extra_scmp_receivers {
+            scmp_error_receivers.register(receiver);
+        }
+
+        (
+            UdpScionSocket::new(socket, pather, connect_timeout, send_error_receivers),
+            handles,
+        )
+    }
+}
+
 #[cfg(test)]
 mod cancel_safety_tests {
     //! Unit tests verifying that all async methods on [`UdpScionSocket`] and
